@@ -297,7 +297,8 @@ ITEMS = location_types() + budget_types() + error_types() + [
              dict(at='start', ghost=True, text='let ghost s0 = ev.rest();'),
              dict(after='let mut node = capture_node(ev)?;', text='lemma_knode_bounds(s0, 0);'),
              dict(before='let mut element = capture_node(ev)?;', ghost=True, text='let ghost s1 = ev.rest();'),
-             dict(after='let mut element = capture_node(ev)?;', text='lemma_knode_bounds(s1, 0);'),
+             dict(after='let mut element = capture_node(ev)?;', text='lemma_knode_bounds(s1, 0); let k = knode(s1, 0).unwrap(); assert(s1 =~= s0.skip(1 + captured)); assert(0 <= k <= s1.len() && s1.len() == s0.len() - (1 + captured)); assert(s1.skip(k) =~= s0.skip(1 + captured + k)); captured = captured + k;'),
+             dict(before='let mut batches = Vec::new();', ghost=True, text='let ghost mut captured: int = 0; assert(s0.len() >= 1 && ev.rest() =~= s0.skip(1));'),
              dict(before='let mut merged = Vec::new();', ghost=True, text='let ghost b0 = batches@;'),
              dict(before='merged.append(&mut nested);', ghost=True, text='let ghost e_before = merged@; let ghost n0 = nested@;'),
              dict(after='merged.append(&mut nested);', text='lemma_abs_entries_append(e_before, n0); lemma_pending_ok_append(e_before, n0);'),
@@ -306,6 +307,11 @@ ITEMS = location_types() + budget_types() + error_types() + [
          ],
          loops={
              1: dict(header=r'^loop$', invariant=[('bounded', 'ev.rest().len() < s0.len() && s0.len() <= i32::MAX && s0 == old(ev).rest() && batches_ok(batches@)')],
+                     invariant_except_break=[
+                                                  # everything consumed so far inside the merge sequence went through capture_node (and from there through
+                                                  # pending_entries_from_events, which rejects what is not a mapping, a sequence or null): no element is skipped
+                                                  ('C03:every_element_of_a_merge_sequence_is_captured_and_expanded_none_is_skipped', 'captured >= 0 && 1 + captured <= s0.len() && ev.rest() =~= s0.skip(1 + captured)')],
+                     ensures=[('left_at_the_end_of_the_sequence', 'true')],
                      decreases='ev.rest().len()'),
              2: dict(header=r'^while let Some\(mut nested\) = batches\.pop\(\)$',
                      invariant=[('newest_first', 'abs_entries(merged@) + concat_rev(batches@) =~= concat_rev(b0)'),
